@@ -205,7 +205,6 @@ mod replacer;
 mod vm;
 
 use crate::analyze::analyze;
-use crate::compile::compile;
 use crate::parse::{ExprTree, NamedGroups, Parser};
 use crate::vm::{Prog, OPTION_SKIPPED_EMPTY_MATCH};
 
@@ -655,7 +654,13 @@ impl Regex {
     }
 
     fn new_options(options: RegexOptions) -> Result<Regex> {
-        let raw_tree = Expr::parse_tree(&options.pattern)?;
+        // The case-insensitive option is resolved by our own parser (it is recorded in the
+        // literals and delegates of the tree), so that it also reaches the parts of the
+        // pattern that are not handed to the inner engine, and `(?-i:..)` keeps working.
+        let casei = options.syntaxc.get_case_insensitive();
+        let raw_tree = Parser::parse_with_casei(&options.pattern, casei)?;
+        let mut options = options;
+        options.syntaxc = options.syntaxc.case_insensitive(false);
 
         // wrapper to search for re at arbitrary start position,
         // and to capture the match bounds
@@ -685,7 +690,7 @@ impl Regex {
             });
         }
 
-        let prog = compile(&info)?;
+        let prog = compile::compile_with_options(&info, &options)?;
         Ok(Regex {
             inner: RegexImpl::Fancy {
                 prog,
